@@ -32,8 +32,12 @@ type c16Result struct {
 	Core *mon.CoreRW
 }
 
-func c16RunSession(shape string, script []c16Op, failAt, accept int) (res c16Result, upgradeErr error) {
+func c16RunSession(shape string, script []c16Op, failAt, accept int, preCT string) (res c16Result, upgradeErr error) {
 	core := mon.NewCoreRW()
+	if preCT != "" {
+		// something earlier (middleware, handler code before Upgrade) already put a Content-Type there
+		core.Hdr["Content-Type"] = []string{preCT}
+	}
 	core.FailAt, core.Accept, core.Err = failAt, accept, errInjectedRW
 	w, _ := mon.MakeRW(shape, core)
 	req := httptest.NewRequest(http.MethodGet, "http://verif.invalid/", http.NoBody)
@@ -92,7 +96,7 @@ func c16Judge(shape string, script []c16Op, res c16Result, failAt int) (out []jv
 		}
 	}
 	for _, l := range log {
-		if l.CT != "" && l.CT != "text/event-stream" {
+		if (l.Op == "write" || l.Op == "flush") && l.CT != "text/event-stream" {
 			out = append(out, jvf([]string{"content_type_wrong"}, "Content-Type is %q", l.CT))
 			break
 		}
@@ -166,6 +170,7 @@ func c16Judge(shape string, script []c16Op, res c16Result, failAt int) (out []jv
 }
 
 type recProvider struct {
+	returnSendErr bool
 	subs      []sse.Subscription
 	subErr    error
 	pubs      [][]string
@@ -181,6 +186,9 @@ func (p *recProvider) Subscribe(_ context.Context, s sse.Subscription) error {
 			err = s.Client.Flush()
 		}
 		p.sendErrs = append(p.sendErrs, err)
+		if err != nil && p.returnSendErr {
+			return err
+		}
 	}
 	return p.subErr
 }
@@ -220,7 +228,8 @@ func TestC16(t *testing.T) {
 		}
 		shape := flushShapes[rng.IntN(len(flushShapes))]
 		r.Begin(key, fmt.Sprintf("shape=%s script=%+v", shape, script))
-		base, uerr := c16RunSession(shape, script, -1, -1)
+		preCT := []string{"", "", "text/plain; charset=utf-8", "application/json"}[rng.IntN(4)]
+		base, uerr := c16RunSession(shape, script, -1, -1, preCT)
 		r.Eval(fw.Hash(shape, fmt.Sprintf("%+v", script)), len(script) > 1)
 		if uerr != nil {
 			r.Violation(key, []string{"upgrade_failed"}, map[string]any{"shape": shape}, "C16: Upgrade failed on a flushing writer: %v", uerr)
@@ -253,7 +262,7 @@ func TestC16(t *testing.T) {
 			for _, e := range res.Rets {
 				rets = append(rets, fmt.Sprint(e))
 			}
-			r.Violation(key, tl, map[string]any{"shape": shape, "script": script, "fail_at_op": failAt, "accept": accept, "returns": rets, "writer_log": lg, "findings": msgs}, "C16: %s (+%d more)", fs[0].Msg, len(fs)-1)
+			r.Violation(key, tl, map[string]any{"shape": shape, "script": script, "preset_content_type": preCT, "fail_at_op": failAt, "accept": accept, "returns": rets, "writer_log": lg, "findings": msgs}, "C16: %s (+%d more)", fs[0].Msg, len(fs)-1)
 		}
 		report(c16Judge(shape, script, base, -1), -1, -1, base)
 		W := base.Core.Ops()
@@ -264,7 +273,7 @@ func TestC16(t *testing.T) {
 				continue
 			}
 			for _, acc := range []int{0, 1, -1} {
-				res, _ := c16RunSession(shape, script, k, acc)
+				res, _ := c16RunSession(shape, script, k, acc, preCT)
 				r.Count("faulted_executions", 1)
 				report(c16Judge(shape, script, res, k), k, acc, res)
 			}
@@ -313,7 +322,8 @@ func TestC16(t *testing.T) {
 		onMode := rng.IntN(6) // 0 nil func, 1 (nil,true), 2 (topics,true), 3 (x,false) silent, 4 (x,false) writes 403, 5 (empty slice,true)
 		subRefuses := rng.IntN(4) == 0
 		sendsFirst := rng.IntN(3) == 0
-		r.Begin(key, fmt.Sprintf("shape=%s header=%q on=%d refuse=%v sendsFirst=%v", shape, hv, onMode, subRefuses, sendsFirst))
+		firstFlushFails := sendsFirst && rng.IntN(3) == 0 && strings.Contains(shape, "flusherror") || sendsFirst && rng.IntN(3) == 0 && strings.Contains(shape, "both")
+		r.Begin(key, fmt.Sprintf("shape=%s header=%q on=%d refuse=%v sendsFirst=%v firstFlushFails=%v", shape, hv, onMode, subRefuses, sendsFirst, firstFlushFails))
 		core := mon.NewCoreRW()
 		core.Err = errInjectedRW
 		w, canFlush := mon.MakeRW(shape, core)
@@ -329,6 +339,13 @@ func TestC16(t *testing.T) {
 			mm := &sse.Message{}
 			mm.AppendData("hello")
 			prov.sendInSub = []*sse.Message{mm}
+		}
+		if onMode == 3 || onMode == 4 {
+			firstFlushFails = false
+		}
+		if firstFlushFails {
+			core.FailAt = 0 // the flush of the headers fails: nothing was sent
+			prov.returnSendErr = true
 		}
 		srv := &sse.Server{Provider: prov}
 		topics := []string{"t1", "t2"}
@@ -395,7 +412,7 @@ func TestC16(t *testing.T) {
 			if sub.Client == nil {
 				fs = append(fs, jvf([]string{"client_nil"}, "Subscription.Client is nil"))
 			}
-			if subRefuses && !sendsFirst {
+			if subRefuses && !sendsFirst && !firstFlushFails {
 				if core.Code != http.StatusInternalServerError || !strings.Contains(body, errSubscribe.Error()) {
 					fs = append(fs, jvf([]string{"no_500_on_subscribe_error"}, "provider refused the subscription before anything was sent but the response is code %d body %q", core.Code, body))
 				}
@@ -403,7 +420,13 @@ func TestC16(t *testing.T) {
 			if !subRefuses && !sendsFirst && len(core.Log) != 0 {
 				fs = append(fs, jvf([]string{"writes_without_events"}, "nothing was sent and Subscribe returned nil but ServeHTTP touched the writer: %+v", core.Log))
 			}
-			if sendsFirst {
+			if firstFlushFails {
+				if len(prov.sendErrs) != 1 || !errors.Is(prov.sendErrs[0], errInjectedRW) {
+					fs = append(fs, jvf([]string{"failure_swallowed"}, "the header flush failed but Send returned %v", prov.sendErrs))
+				} else if core.Code != http.StatusInternalServerError || !strings.Contains(body, errInjectedRW.Error()) {
+					fs = append(fs, jvf([]string{"no_500_on_subscribe_error"}, "the provider's first Send failed at the header flush (nothing was sent) and Subscribe returned that error, but the response is code %d body %q", core.Code, body))
+				}
+			} else if sendsFirst {
 				if len(prov.sendErrs) != 1 || prov.sendErrs[0] != nil {
 					fs = append(fs, jvf([]string{"send_through_session_failed"}, "sending through the session failed: %v", prov.sendErrs))
 				} else if !strings.HasPrefix(body, "data: hello\n\n") {
@@ -424,7 +447,7 @@ func TestC16(t *testing.T) {
 			for tg := range tags {
 				tl = append(tl, tg)
 			}
-			r.Violation(key, tl, map[string]any{"shape": shape, "header": hv, "on_session_mode": onMode, "subscribe_refuses": subRefuses, "provider_sends_first": sendsFirst, "findings": msgs}, "C16: %s (+%d more)", fs[0].Msg, len(fs)-1)
+			r.Violation(key, tl, map[string]any{"shape": shape, "header": hv, "on_session_mode": onMode, "subscribe_refuses": subRefuses, "provider_sends_first": sendsFirst, "first_flush_fails": firstFlushFails, "findings": msgs}, "C16: %s (+%d more)", fs[0].Msg, len(fs)-1)
 		}
 	}
 	// (D) Server.Publish without topics reaches the provider with [DefaultTopic]
